@@ -117,7 +117,7 @@ func callSSA(i *interpreter, caller *frame, callpos token.Pos, fn *ssa.Function,
 		if sub := i.shared.subst[name]; sub != nil && !(caller != nil && caller.fn == sub) {
 			return callSSA(i, caller, callpos, sub, args, nil)
 		}
-		if ext := i.shared.ext[name]; ext != nil && i.noExt == 0 {
+		if ext := i.shared.ext[name]; ext != nil && i.bypass[name] == 0 {
 			return ext(fr, args)
 		}
 		if ext := externals[name]; ext != nil {
@@ -271,27 +271,27 @@ func (i *interpreter) runtimeErrorType() types.Type {
 
 // Shared is the per-program state shared by all paths.
 type Shared struct {
-	prog      *ssa.Program
-	main      *ssa.Package
-	sizes     types.Sizes
-	ext       map[string]externalFn
-	subst     map[string]*ssa.Function
-	globalsMu sync.Mutex
+	prog          *ssa.Program
+	main          *ssa.Package
+	sizes         types.Sizes
+	ext           map[string]externalFn
+	subst         map[string]*ssa.Function
+	globalsMu     sync.Mutex
 	sharedGlobals map[*ssa.Global]*value
-	rtErrType types.Type
-	initOnce  sync.Once
-	Warnings  []string
-	fnSeen    sync.Map
-	Thorough  bool
+	rtErrType     types.Type
+	initOnce      sync.Once
+	Warnings      []string
+	fnSeen        sync.Map
+	Thorough      bool
 }
 
 func NewShared(prog *ssa.Program, mainPkg *ssa.Package, sizes types.Sizes) *Shared {
 	sh := &Shared{
-		prog:  prog,
-		main:  mainPkg,
-		sizes: sizes,
-		ext:   map[string]externalFn{},
-		subst: map[string]*ssa.Function{},
+		prog:          prog,
+		main:          mainPkg,
+		sizes:         sizes,
+		ext:           map[string]externalFn{},
+		subst:         map[string]*ssa.Function{},
 		sharedGlobals: map[*ssa.Global]*value{},
 	}
 	registerVerifExternals(sh)
@@ -485,27 +485,27 @@ type Config struct {
 }
 
 type HarnessResult struct {
-	Harness       string         `json:"harness"`
-	Paths         int            `json:"paths"`
-	Ends          map[string]int `json:"ends"`
-	Steps         int64          `json:"steps"`
-	Obligations   int            `json:"obligations"`
-	Discharged    int            `json:"discharged"`
-	Unknowns      int            `json:"unknowns"`
-	Violations    []Violation    `json:"violations"`
-	Reached       []string       `json:"reached"`
-	Funcs         []string       `json:"functions_encoded"`
-	Incomplete    []string       `json:"incomplete"`
-	Queries       int            `json:"queries"`
-	Sat           int            `json:"sat"`
-	Unsat         int            `json:"unsat"`
-	SolverUnknown int            `json:"solver_unknown"`
-	SolverErrors  int            `json:"solver_errors"`
-	SolverSec     float64        `json:"solver_s"`
-	WallSec       float64        `json:"wall_s"`
-	Exhausted     bool           `json:"exhausted"`
+	Harness       string              `json:"harness"`
+	Paths         int                 `json:"paths"`
+	Ends          map[string]int      `json:"ends"`
+	Steps         int64               `json:"steps"`
+	Obligations   int                 `json:"obligations"`
+	Discharged    int                 `json:"discharged"`
+	Unknowns      int                 `json:"unknowns"`
+	Violations    []Violation         `json:"violations"`
+	Reached       []string            `json:"reached"`
+	Funcs         []string            `json:"functions_encoded"`
+	Incomplete    []string            `json:"incomplete"`
+	Queries       int                 `json:"queries"`
+	Sat           int                 `json:"sat"`
+	Unsat         int                 `json:"unsat"`
+	SolverUnknown int                 `json:"solver_unknown"`
+	SolverErrors  int                 `json:"solver_errors"`
+	SolverSec     float64             `json:"solver_s"`
+	WallSec       float64             `json:"wall_s"`
+	Exhausted     bool                `json:"exhausted"`
 	Samples       []map[string]uint64 `json:"samples"`
-	MaxDecisions  int            `json:"max_decisions"`
+	MaxDecisions  int                 `json:"max_decisions"`
 }
 
 func (sh *Shared) Explore(fnName string, cfg Config) *HarnessResult {
